@@ -478,42 +478,60 @@ def updateHoldIn (db : DB) (h h' : Hold) : DB :=
   let k := db.getKey h.cmd.key
   db.setKey { k with holders := replaceHolder k.holders h h' }
 
-/-- `checkTimeTimeOut(c, now)`: visit slot `c`, re-arm what is not due, then fire what is. -/
-def sweepTimeout (db : DB) (c : Nat) : DB × List Reply :=
-  let slot := sortBySeq (·.sched.seq) ((allWaiters db).filter (fun w => w.sched.visit == c && !w.sched.long))
-  let long := sortBySeq (·.sched.seq) ((allWaiters db).filter (fun w => w.sched.visit == c && w.sched.long))
-  -- pass 1: re-arm
-  let (db1, due) := slot.foldl (fun (acc : DB × List Waiter) w =>
-    let (d, due) := acc
-    if w.timeoutT > d.now then
-      let (t', sc) := wheelAdd d.tCheck d.seq w.timeoutT (w.sched.checked + 1)
-      (updateWaiter { d with seq := d.seq + 1 } w { w with timeoutT := t', sched := sc }, due)
-    else (d, due ++ [w])) (db, [])
-  let due := due ++ long
-  -- pass 2: fire (a record may have been granted / cancelled meanwhile only in concurrent runs; sequentially all are live)
-  due.foldl (fun (acc : DB × List Reply) w =>
-    let (d, out) := acc
-    let (d', r) := fireTimeout d w
-    (d', out ++ r)) (db1, [])
+def slotWaiters (db : DB) (c : Nat) : List Waiter :=
+  sortBySeq (·.sched.seq) ((allWaiters db).filter (fun w => w.sched.visit == c && !w.sched.long))
+def longWaiters (db : DB) (c : Nat) : List Waiter :=
+  sortBySeq (·.sched.seq) ((allWaiters db).filter (fun w => w.sched.visit == c && w.sched.long))
+def slotHolds (db : DB) (c : Nat) : List Hold :=
+  sortBySeq (·.sched.seq) ((allHolds db).filter (fun h => h.sched.visit == c && !h.sched.long))
+def longHolds (db : DB) (c : Nat) : List Hold :=
+  sortBySeq (·.sched.seq) ((allHolds db).filter (fun h => h.sched.visit == c && h.sched.long))
 
+/-- a visited record whose deadline is still ahead: back-off +1 and re-arm (`AddTimeOut` again) -/
+def rearmWaiter (d : DB) (w : Waiter) : DB :=
+  let r := wheelAdd d.tCheck d.seq w.timeoutT (w.sched.checked + 1)
+  updateWaiter { d with seq := d.seq + 1 } w { w with timeoutT := r.1, sched := r.2 }
+
+def rearmHold (d : DB) (h : Hold) : DB :=
+  let r := wheelAdd d.eCheck d.seq h.expT (h.sched.checked + 1)
+  updateHoldIn { d with seq := d.seq + 1 } h { h with expT := r.1, sched := r.2 }
+
+/-- the collecting critical section: visit one slot entry -/
+def timeoutStep (acc : DB × List Waiter) (w : Waiter) : DB × List Waiter :=
+  if w.timeoutT > acc.1.now then (rearmWaiter acc.1 w, acc.2) else (acc.1, acc.2 ++ [w])
+
+def expireStep (acc : DB × List Hold) (h : Hold) : DB × List Hold :=
+  if h.expT > acc.1.now then (rearmHold acc.1 h, acc.2) else (acc.1, acc.2 ++ [h])
+
+/-- pass 1 of `checkTimeTimeOut(c, now)`: re-arm what is not due; returns the records to fire, in firing order
+(due slot entries, then the long-table entries of second `c`). -/
+def timeoutPass1 (db : DB) (c : Nat) : DB × List Waiter :=
+  let r := (slotWaiters db c).foldl timeoutStep (db, [])
+  (r.1, r.2 ++ longWaiters db c)
+
+def expirePass1 (db : DB) (c : Nat) : DB × List Hold :=
+  let r := (slotHolds db c).foldl expireStep (db, [])
+  (r.1, r.2 ++ longHolds db c)
+
+def fireTimeoutStep (acc : DB × List Reply) (w : Waiter) : DB × List Reply :=
+  ((fireTimeout acc.1 w).1, acc.2 ++ (fireTimeout acc.1 w).2)
+
+/-- fire one collected hold, if that record is still a live holder (an earlier firing of this pass cannot have
+removed it sequentially; the lookup mirrors `if lock.expried { … return }`) -/
+def fireExpireStep (acc : DB × List Reply) (h : Hold) : DB × List Reply :=
+  match (acc.1.getKey h.cmd.key).holders.find? (·.hid == h.hid) with
+  | some h' => ((fireExpire acc.1 h.cmd.key h').1, acc.2 ++ (fireExpire acc.1 h.cmd.key h').2)
+  | none => acc
+
+/-- `checkTimeTimeOut(c, now)` -/
+def sweepTimeout (db : DB) (c : Nat) : DB × List Reply :=
+  let p := timeoutPass1 db c
+  p.2.foldl fireTimeoutStep (p.1, [])
+
+/-- `checkTimeExpried(c, now)` -/
 def sweepExpire (db : DB) (c : Nat) : DB × List Reply :=
-  let slot := sortBySeq (·.sched.seq) ((allHolds db).filter (fun h => h.sched.visit == c && !h.sched.long))
-  let long := sortBySeq (·.sched.seq) ((allHolds db).filter (fun h => h.sched.visit == c && h.sched.long))
-  let (db1, due) := slot.foldl (fun (acc : DB × List Hold) h =>
-    let (d, due) := acc
-    if h.expT > d.now then
-      let (t', sc) := wheelAdd d.eCheck d.seq h.expT (h.sched.checked + 1)
-      (updateHoldIn { d with seq := d.seq + 1 } h { h with expT := t', sched := sc }, due)
-    else (d, due ++ [h])) (db, [])
-  let due := due ++ long
-  due.foldl (fun (acc : DB × List Reply) h =>
-    let (d, out) := acc
-    -- a hold fired earlier in this pass may have let a waiter in; `h` itself is still the same record
-    match (d.getKey h.cmd.key).holders.find? (·.hid == h.hid) with
-    | some h' =>
-      let (d', r) := fireExpire d h.cmd.key h'
-      (d', out ++ r)
-    | none => (d, out)) (db1, [])
+  let p := expirePass1 db c
+  p.2.foldl fireExpireStep (p.1, [])
 
 /-- one second of server time: clock +1, timeout sweep of that second, expiry sweep of that second -/
 def opTick (db : DB) : DB × List Reply :=
